@@ -1005,12 +1005,8 @@ func (c *ctxT) replayLine(l string, rnd *common.Rand) {
 	case f[1] == "stdec" && len(f) == 3:
 		c.stdecLine(dec(f[2]))
 	case f[1] == "serr" && len(f) == 7:
-		c.errCase(serr{un(f[2]), un(f[3]), un(f[4]), texts(f[5])}, nil, rnd)
+		c.errCase(serr{un(f[2]), un(f[3]), un(f[4]), texts(f[5])}, dec(f[6]), rnd)
 	case f[1] == "sterr" && len(f) == 6:
-		var p []xml.Token
-		if f[5] != "-" {
-			p = []xml.Token{xml.StartElement{Name: xml.Name{Space: "urn:app", Local: "app"}}, xml.EndElement{Name: xml.Name{Space: "urn:app", Local: "app"}}}
-		}
-		c.stErrCase(sterr{un(f[2]), un(f[3]), texts(f[4])}, p)
+		c.stErrCase(sterr{un(f[2]), un(f[3]), texts(f[4])}, dec(f[5]))
 	}
 }
